@@ -492,7 +492,9 @@ pub fn gen_case(rng: &mut Rng, opt: &str, _thorough: bool) -> String {
             let &(l, c, n, is_num) = rng.pick(&r.tokens);
             let off = offset_of(&r.bytes, l, c);
             let repl: Vec<u8> = if is_num {
-                match rng.below(5) {
+                match rng.below(7) {
+                    5 => b"0".to_vec(),
+                    6 => b"00".to_vec(),
                     0 => b"18446744073709551616".to_vec(),
                     1 => b"99999999999999999999999".to_vec(),
                     2 => format!("0{}", rng.range(0, 99)).into_bytes(),
@@ -510,7 +512,10 @@ pub fn gen_case(rng: &mut Rng, opt: &str, _thorough: bool) -> String {
             let mut b = r.bytes.clone();
             b.splice(off..off + n, repl.clone());
             case.data = b;
-            case.tok = Some((l, c, repl.len()));
+            // a lone zero is a legal value in some positions (extension widths, slice indices):
+            // no claim about an error on the token then, the other oracles still apply
+            let maybe_legal = repl == b"0" || repl == b"00";
+            case.tok = if maybe_legal { None } else { Some((l, c, repl.len())) };
         }
         "fault" => {
             let doc = gen_doc(rng);
@@ -538,4 +543,31 @@ pub fn fault_sweep(rng: &mut Rng) -> Vec<String> {
     (0..=r.bytes.len())
         .map(|k| Case { k: Some(k), ls: false, data: r.bytes.clone(), expect: None, tok: None, valid: None }.line())
         .collect()
+}
+
+/// Complete enumeration of the constant validators' small domain (C03): every string over
+/// {'-', '0', '1', '7', 'a', 'f', 'g'} up to length 4, for the three constant kinds.
+pub fn validators_exhaustive() -> Vec<String> {
+    let alpha = b"-017afg";
+    let mut strings: Vec<Vec<u8>> = vec![vec![]];
+    let mut frontier: Vec<Vec<u8>> = vec![vec![]];
+    for _ in 0..4 {
+        let mut next = vec![];
+        for s in &frontier {
+            for &c in alpha {
+                let mut t = s.clone();
+                t.push(c);
+                next.push(t);
+            }
+        }
+        strings.extend(next.iter().cloned());
+        frontier = next;
+    }
+    let mut out = vec![];
+    for s in &strings {
+        for t in ['b', 'd', 'h'] {
+            out.push(Case { k: None, ls: false, data: vec![], expect: None, tok: None, valid: Some((t, s.clone())) }.line());
+        }
+    }
+    out
 }
